@@ -113,3 +113,43 @@ def offered_member(desc, tier, seed):
         # linked DV nodes are not part of this corpus (see C16 driver)
     ctx.samples.append(dict(desc=desc.label, reference=len(ref)))
     return ctx.result()
+
+
+def sibling_member(desc, tier, seed):
+    """Choices that are under no constraint of a graph stay unconstrained in that graph when a *copy* of it gets a
+    further constraint over them: the architectures offered by the original are still its reference set."""
+    from adsg_core.graph.choice_constraints import ChoiceConstraintType
+    from adsg_core.optimization.graph_processor import GraphProcessor
+    from adsg_core.optimization.hierarchy import SelChoiceEncoderType
+    ctx = Ctx(desc)
+    ref = ref_archs(desc)
+    try:
+        b = gen.Built(desc)
+    except Exception:
+        return ctx.result()
+    constrained = {c for _, cs in desc.constraints for c in cs}
+    free = [b.choice[c.cid] for c in desc.choices if c.cid not in constrained and b.choice[c.cid] in b.dsg.graph.nodes]
+    free = [c for c in free if len(b.dsg.get_option_nodes(c)) == len(b.dsg.get_option_nodes(free[0]))] if free else []
+    if len(free) < 2:
+        return ctx.result()
+    for ctype in (ChoiceConstraintType.PERMUTATION, ChoiceConstraintType.UNORDERED, ChoiceConstraintType.LINKED):
+        wit = ['COMPLETE', 'constraint-on-a-copy', ctype.name]
+        nt = (desc.label, 'sibling', ctype.name)
+        try:
+            b.dsg.copy().constrain_choices(ctype, free[:2])
+        except Exception as e:  # noqa
+            ctx.check('C13.constraint-on-a-copy-accepted', False, wit, f'{type(e).__name__}: {e}', nt)
+            continue
+        try:
+            gp = GraphProcessor(b.dsg, encoder_type=SelChoiceEncoderType.COMPLETE)
+            X, _ = gp.get_all_discrete_x()
+            got = set()
+            for x in X:
+                inst, xi, ai = gp.get_graph(list(x))
+                got.add(obs_arch(b, inst))
+            ctx.check('C13.unconstrained-choices-stay-unconstrained', got == ref, wit,
+                      f'after constraining two free choices on a copy ({ctype.name}) the original offers {len(got)} architectures, reference {len(ref)}; '
+                      f'missing {[sorted(m[0]) for m in list(ref - got)[:2]]}', nt)
+        except Exception as e:  # noqa
+            ctx.check('C13.unconstrained-choices-stay-unconstrained', len(ref) == 0, wit, f'{type(e).__name__}: {e}', nt)
+    return ctx.result()
